@@ -244,3 +244,21 @@ package client
 
 // clientIdle: the calling goroutine holds none of the client's locks.
 //@ pred clientIdle(c *Client) = held(c.awaiting) == 0 && held(c.qs.sendMu) == 0 && held(c.sendErrMu) == 0 && held(c.qs.pendMu) == 0
+
+// Get (client side): an unusable request is refused without an RPC; otherwise exactly one Get RPC is started with the request
+// as given, and the answer is the concatenation, in arrival order, of the entries of every response received until the
+// stream ends; an error of the stream fails the call.
+//@ pred getRequestUsable(q *spb.GetRequest) = q != nil && tagof(q.NetworkInstance) != 0 && (istype(q.NetworkInstance, *spb.GetRequest_All) ==> q.GetAll() != nil)
+//@   && (istype(q.NetworkInstance, *spb.GetRequest_Name) ==> q.GetName() != "") && q.GetAft() != spb.AFTType_INVALID
+//@ unit Client.Get
+//@ requires c != nil && tagof(c.c) != 0
+//@ requires[wire-valid] sreq != nil ==> (tagof(sreq.NetworkInstance) != 0 ==> payload(sreq.NetworkInstance) != 0)
+//@ ensures[one-of] (result0 == nil) != (result1 == nil)
+//@ ensures[unusable-refused] !getRequestUsable(sreq) ==> result1 != nil && remoteGets == old(remoteGets) && getRecvd == old(getRecvd)
+//@ ensures[one-rpc-as-given] getRequestUsable(sreq) ==> remoteGets == old(remoteGets) + 1 && lastRemoteGetAft == sreq.Aft && (lastRemoteGetAll <==> istype(sreq.NetworkInstance, *spb.GetRequest_All))
+//@ ensures[wire-valid] result1 == nil ==> result0 != nil && (forall j in 0..len(result0.Entry) :: result0.Entry[j] != nil && (tagof(result0.Entry[j].Entry) != 0 ==> payload(result0.Entry[j].Entry) != 0))
+//@ ensures[only-entries] result1 == nil ==> fresh(result0)
+//@ loop 1 invariant result != nil && fresh(result) && tagof(stream) != 0 && (forall j in 0..len(result.Entry) :: result.Entry[j] != nil && (tagof(result.Entry[j].Entry) != 0 ==> payload(result.Entry[j].Entry) != 0))
+//@ loop 1 invariant remoteGets == old(remoteGets) + 1 && lastRemoteGetAft == sreq.Aft && (lastRemoteGetAll <==> istype(sreq.NetworkInstance, *spb.GetRequest_All)) && getRequestUsable(sreq)
+//@ assigns remoteGets, lastRemoteGetAft, lastRemoteGetAll, getRecvd
+//@ props C15 C07 C12:safety
